@@ -1,31 +1,64 @@
 CONFIG = {
     "manifest": {
-        "text": "Theorems (Qed, closed under the global context) over every byte stream: ReadLV never panics and allocates < MaxMessageSize, "
+        "text": "Theorems (Qed, closed under the global context). Framing, over every byte stream: ReadLV never panics and allocates < MaxMessageSize, "
                 "an accepted frame is exactly the framed payload, WriteTLV/ReadTLV and frame streams round-trip, the handleConn dispatch loop never "
-                "panics in the framing layer; MaxMessageSize and the dispatch table are re-read from the source each run and the model is "
-                "diffed against the real ReadLV/WriteTLV/handleConn on designed + generated streams. Partial: message bodies (protobuf) have no theorem.",
-        "note": "Trusts Coq kernel, genconsts translator, the harness; io.ReadFull semantics; message bodies/protobuf and heap use beyond the frame buffer are outside the model.",
-        "technique": "Coq proof (induction over byte streams) on a Gallina model of the framing + differential correspondence against the real listener code",
+                "panics in the framing layer. Streamed query points, over a byte-exact model of the gogo/protobuf wire format of internal.Point/Aux/IteratorStats "
+                "and of the 4-byte frame prefix and reader loop: for EVERY well-formed point of each of the five value types (any name bytes, tags id, time, nil flag, "
+                "aux list with typed values, typed nil markers, empty strings, untyped nil, any aggregate count) decode(encode p) = p; a stream of point / stats / trace "
+                "frames decodes to the same point sequence; Tags.ID() round-trips for NUL-free tag maps; for EVERY byte string the frame reader and message decoder "
+                "return Ok or Err, never crash. MaxMessageSize, the dispatch table and the protobuf field tables (numbers, wire kinds, labels) are re-read from the source "
+                "each run. The models are diffed against the real ReadLV/WriteTLV/handleConn, the real <T>PointEncoder/IteratorEncoder (byte equality) and the real "
+                "<T>PointDecoder/NewReaderIterator (decoded values; ok/err/panic class on arbitrary and mutated frames). Differential only (no theorem): well-formed "
+                "request envelopes with invalid or edge contents for every message type are fed to the real handleConn (no handler may panic, reply types must match the "
+                "dispatch model), and Unmarshal(Marshal(v)) = v is checked for every request/response type of rpc.go.",
+        "note": "Trusts Coq kernel, genconsts translator, the harness and its canonicalisers; io.ReadFull semantics; gogo/protobuf is modelled for the three streamed-point "
+                "messages only; rpc.go message bodies (protobuf, JSON, influxql String/Parse) and the request handlers are exercised, not modelled; heap use beyond the frame "
+                "buffer is not modelled (the point frame reader allocates the announced uint32 length before reading).",
+        "technique": "Coq proof (induction over byte streams / field lists, fuel-independent reader loop) on Gallina models of the TLV framing and of the streamed point wire "
+                     "format + differential correspondence against the real listener, encoders and decoders",
     },
     "harness": "h_c15",
     "level": "proof",
-    "n": {"quick": 1600, "thorough": 8000},
+    "extra_proof_files": ["PointProofs"],
+    "n": {"quick": 2000, "thorough": 12000},
     "shard": 300,
-    "bytes_keys": ["stream", "buf"],
-    "rule": "designed cases (every special length x every dispatch kind, every type byte 0..45 with empty payload and with EOF) "
-            "then seeded generation: ReadLV streams (header from special/ random/ small sizes, payload exact/short/long, truncated header), "
-            "WriteTLV/ReadTLV values, and multi-frame streams fed to the real Service.handleConn over loopback with a real empty tsdb.Store; "
-            "distinct = distinct byte stream; non-trivial = header complete (lv), non-empty payload (wr), at least one reply frame (serve)",
+    "bytes_keys": ["stream", "buf", "name", "key", "val", "s"],
+    "harness_timeout": {"quick": 1500, "thorough": 3000},
+    "rule": "designed cases, always run: (framing) every special length x every dispatch kind, every type byte 0..45 with empty payload and with EOF; "
+            "(A, kind serve) for every request type of the dispatch table, well-formed envelopes built with the real request structs' MarshalBinary and WriteTLV whose contents are "
+            "invalid or at an edge: WriteShard with unparsable/empty/truncated/bit-flipped binary points and unknown shards; ExecuteStatement and TaskManagerStatement with "
+            "'', ' ', ';', comments, unparsable, non-cluster and multi-statement texts; MeasurementNames/TagKeys/TagValues with nil, unparsable and system-tag conditions; "
+            "CreateIterator/IteratorCost/FieldDimensions/MapType/ExpandSources with empty and regex measurements, empty/unknown/duplicate shard lists, every field x every data type, "
+            "calls without arguments, negative and extreme limits/intervals/time ranges; StoreReadFilter/ReadGroup with empty requests, bad read sources, bad predicates, unsupported "
+            "group and aggregate kinds; Backup/Copy/RemoveShard with unknown ids and bad hosts; JoinCluster with empty servers; RemoveHintedHandoff; ListShards; LeaveCluster; "
+            "several requests on one connection - all against a real tsdb.Store holding series of every field type; "
+            "(B, kind rpc) every request/response type of rpc.go: zero value, typical value, extremes; "
+            "(C, kinds point/stream/raw/ptconsts) every aux kind alone (incl. '' vs the string nil marker) and all together for each of the 5 point types, extreme names/times/values, "
+            "IteratorEncoder streams with and without trace frame, every truncation of a valid frame, hand-built frames (missing required fields, empty stats/trace, aux without DataType, "
+            "groups, stray end-group, unknown wire types, short fixed32). Then seeded generation (1/16 ReadLV, 1/16 WriteTLV, 2/16 random listener streams, 3/16 designed envelopes with "
+            "payload bytes flipped/truncated/extended and re-framed, 3/16 rpc values, 3/16 points, 1/16 encoder streams, 2/16 raw/mutated/hand-built frame streams). "
+            "distinct = distinct byte stream / value; non-trivial = header complete (lv), non-empty payload (wr), at least one reply frame (serve), non-default value (rpc), "
+            "point with name, tags or aux (point), at least one point (stream), at least one frame header (raw)",
     "trusted_base": [
-        "C15: per-message structs (gogo/protobuf, JSON, influxql String/Parse) are NOT modelled: framing only; message bodies are exercised by the harness with empty and random payloads (crash observation) but have no theorem",
-        "C15: allocation is observed through runtime.MemStats.TotalAlloc deltas (>= MaxMessageSize or not)",
+        "C15: request/response structs of coordinator/rpc.go (gogo/protobuf, JSON, influxql String/Parse) are NOT modelled: their round trip (kind rpc) and the handlers' behaviour "
+        "on valid envelopes with invalid contents (kind serve) are differential observations only, no theorem; JSON-carried strings are generated as valid UTF-8, tag keys/values without NUL",
+        "C15: the streamed point model covers messages Point/Aux/IteratorStats of query/internal/internal.proto as gogo/protobuf v1.3.2 table marshal/unmarshal treats them (proto2); "
+        "field numbers, wire kinds and labels are regenerated from internal.pb.go by genconsts on every run, the influxql.DataType codes are compared with the working tree by case ptconsts",
+        "C15: a handler panic is observed through the handlerPanic statistic of the (repaired) handleConn recover, or directly when it escapes handleConn; a panic in a goroutine "
+        "spawned by a handler kills the harness process and is reported by bin/check with the announced input",
+        "C15: allocation is observed through runtime.MemStats.TotalAlloc deltas (>= MaxMessageSize or not) for ReadLV only",
         "C15: the dispatch table and MaxMessageSize are regenerated from coordinator/service.go by genconsts on every run",
+        "C15: decodeIteratorTrace is abstracted as a predicate trace_ok on the trace bytes (the harness decodes under context.Background(), where it accepts everything)",
     ],
-    "modelled": "coordinator/service.go ReadType/ReadLV/ReadTLV/WriteTLV/WriteLV and the type switch of handleConn are modelled (theories/C15/Model.v); "
-                "process* request handlers, protobuf bodies, point stream frames and TCP behaviour are not modelled",
-    "assumptions": ["io.ReadFull/binary.Read semantics: a short read consumes all remaining bytes and returns an error",
-                    "heap use beyond the frame buffer is not modelled"],
+    "modelled": "modelled with theorems: coordinator/service.go ReadType/ReadLV/ReadTLV/WriteTLV/WriteLV and the type switch of handleConn (theories/C15/Model.v); query/point.go "
+                "encodeTags/decodeTags/newTagsID, encodeAux/decodeAux, query/point.gen.go encode<T>Point/decode<T>Point and <T>PointEncoder/<T>PointDecoder, the reader loop of "
+                "<t>ReaderIterator.Next, IteratorEncoder stats/trace frames, protobuf wire encoding/decoding of Point/Aux/IteratorStats incl. unknown fields, wrong wire types, groups, "
+                "required-field check (theories/C15/PointModel.v). Differential only: process* request handlers, every rpc.go message body, TCP behaviour",
+    "assumptions": ["io.ReadFull/binary.Read semantics: a short read consumes all remaining bytes and returns an error (io.EOF when nothing was read)",
+                    "heap use beyond the TLV frame buffer is not modelled; the point frame reader's make([]byte, sz) for a uint32 sz is outside the MaxMessageSize claim",
+                    "well-formed point: 64-bit values, uint32 aggregate count, Tags.ID() of a tag map without NUL bytes, aux values of the ten typed kinds or untyped nil, frame body < 2^32 bytes"],
 }
+
 
 def classify(case):
     return None
